@@ -275,7 +275,7 @@ def run(facts, tier):
         raise BrokenCheck("R03-3: %d recursion cycles found, floor 2" % res.rules["R03-3"]["instances"])
     # cyclic entity definitions: the visited test of the expansion must see the whole chain (G1) and extend it (G2)
     import guards
-    xreach, _ = facts.reachable([facts.fn("xml_info::attr_value_from_name")["id"]])
+    xreach, _ = facts.reachable(__import__("props.c11", fromlist=["x"]).expansion_roots(facts))
     guards.rule(facts, res, "R03-3g", [facts.fns[x] for x in set(reach) | set(xreach) if x in facts.fns], want=("G1", "G2", "G4", "G5"), floor=1)
     r03_4(facts, res, reach)
     from props import c01
